@@ -106,6 +106,35 @@ def closed(C, S):
     C(all(frozenset(c) in ms for m in ms for k in range(2, len(m)) for c in itertools.combinations(m, k)), "complex-not-downward-closed")
 
 
+
+def _flag_check(C, g, p, G, seed):
+    if g == "flag_complex":
+        mo = p["max_order"]
+        ps = p["ps"][: mo - 1] if p["ps"] is not None and mo > 1 else None
+        H = xgi.flag_complex(G, max_order=mo, ps=ps, seed=seed)
+        hi = mo + 1
+        exact = ps is None or all(x == 1 for x in ps)
+    else:
+        H = xgi.flag_complex_d2(G, p2=p["p2"], seed=seed)
+        hi = 3
+        exact = p["p2"] in (None, 1)
+    basic(C, H, G.nodes, maxsize=hi)
+    closed(C, H)
+    cl = {frozenset(c) for c in nx.enumerate_all_cliques(G) if 2 <= len(c) <= hi}
+    got = {frozenset(m) for m in H.edges.members()}
+    if exact:
+        C(got == cl, "not-exactly-the-cliques", lambda: "extra %r missing %r" % (sorted(map(sorted, got - cl))[:3], sorted(map(sorted, cl - got))[:3]))
+    else:
+        C(got <= cl and {c for c in cl if len(c) == 2} <= got, "not-a-subcomplex-of-the-clique-complex")
+        if g == "flag_complex" and ps is not None:
+            # each order is promoted on its own: probability 1 at order d fills every (d+1)-clique, whatever happened at lower orders
+            for i, pr in enumerate(ps):
+                if pr == 1:
+                    want = {c for c in cl if len(c) == i + 3}
+                    C(want <= got, "p=1-order-misses-cliques", lambda: "order %d: missing %r" % (i + 2, sorted(map(sorted, want - got))[:3]))
+    return H
+
+
 def run_case(case, ctx):
     g, p, seed = case["gen"], case["params"], case["seed"]
     C = Chk(ctx, g, p)
@@ -268,24 +297,16 @@ def run_case(case, ctx):
             G = nx.Graph()
             G.add_nodes_from(range(p["gn"] - 1, -1, -1) if seed % 2 else range(p["gn"]))
             G.add_edges_from((a % p["gn"], b % p["gn"]) for a, b in p["gedges"] if a % p["gn"] != b % p["gn"])
-        if g == "flag_complex":
-            mo = p["max_order"]
-            ps = p["ps"][: mo - 1] if p["ps"] is not None and mo > 1 else None
-            H = xgi.flag_complex(G, max_order=mo, ps=ps, seed=seed)
-            hi = mo + 1
-            exact = ps is None or all(x == 1 for x in ps)
+        _flag_check(C, g, p, G, seed)
+        # the same Graph object after an edit (one edge toggled): nothing remembered about the earlier graph may be used
+        es = list(G.edges)
+        non = [(a, b) for a in G.nodes for b in G.nodes if repr(a) < repr(b) and not G.has_edge(a, b)]
+        if (seed % 3 == 0 and es) or not non:
+            if es:
+                G.remove_edge(*es[0])
         else:
-            H = xgi.flag_complex_d2(G, p2=p["p2"], seed=seed)
-            hi = 3
-            exact = p["p2"] in (None, 1)
-        basic(C, H, G.nodes, maxsize=hi)
-        closed(C, H)
-        cl = {frozenset(c) for c in nx.enumerate_all_cliques(G) if 2 <= len(c) <= hi}
-        got = {frozenset(m) for m in H.edges.members()}
-        if exact:
-            C(got == cl, "not-exactly-the-cliques", lambda: "extra %r missing %r" % (sorted(map(sorted, got - cl))[:3], sorted(map(sorted, cl - got))[:3]))
-        else:
-            C(got <= cl and {c for c in cl if len(c) == 2} <= got, "not-a-subcomplex-of-the-clique-complex")
+            G.add_edge(*non[0])
+        H = _flag_check(C, g, p, G, seed)
         boundary = p["gp"] in (0, 1)
     elif g == "random_flag_complex":
         H = xgi.random_flag_complex(p["N"], p["p"], max_order=p["max_order"], seed=seed)
